@@ -550,3 +550,46 @@ func H_C03_repr_float() {
 	vassert(same(funcSetpath(arr, []any{map[string]any{"start": 1, "end": jn}}, []any{9}), funcSetpath(arr, []any{map[string]any{"start": 1, "end": pn}}, []any{9})), "a slice path does not depend on the representation")
 	vreach("end")
 }
+
+// H_C03_numconv: the float -> int conversions used by every index, slice bound, count
+// and modulo are total and saturating for every double (FP theory, incl. NaN, +-Inf and
+// exactly 2^63), and clampIndex stays inside its bounds.
+func H_C03_numconv() {
+	f := nondetFloat()
+	i := floatToInt(f)
+	switch {
+	case f != f:
+		vreach("nan")
+	case f >= 9223372036854775808.0:
+		vassert(i == math.MaxInt, "floatToInt saturates at MaxInt from 2^63 on")
+		vreach("high")
+	case f < -9223372036854775808.0:
+		vassert(i == math.MinInt, "floatToInt saturates at MinInt below -2^63")
+		vreach("low")
+	default:
+		vassert(float64(i) == math.Trunc(f), "floatToInt truncates towards zero inside the int64 range")
+		vreach("inrange")
+	}
+	j, ok := toInt(f)
+	vassert(ok && j == i, "toInt on a float is floatToInt")
+	c, ok := toIntCeil(f)
+	vassert(ok && c == floatToInt(math.Ceil(f)), "toIntCeil rounds up first")
+	// slices and indices with a float bound stay inside the array for every double
+	arr := []any{1, 2, 3}
+	r, isArr := funcSlice(nil, arr, f, nil).([]any)
+	vassert(isArr && len(r) <= 3, "a slice with any float end stays inside the array")
+	if isArr && f >= 3 {
+		vassert(len(r) == 3, "an end beyond the length takes the whole array")
+	}
+	g := funcIndex2(nil, arr, f)
+	if f >= 3 || f <= -4 {
+		vassert(g == nil, "an index outside the array is null")
+	}
+	mn, mx, x := nondetInt(), nondetInt(), nondetInt()
+	vassume(0 <= mn)
+	vassume(mn <= mx)
+	vassume(mx <= 1<<40)
+	k := clampIndex(x, mn, mx)
+	vassert(mn <= k && k <= mx, "clampIndex stays within its bounds")
+	vreach("end")
+}
